@@ -126,7 +126,14 @@ type inResult struct {
 	// Churn: file operations (create, remove, rename, symlink, mkdir ...) applied to the watched rule directory
 	Churn int `json:"churn,omitempty"`
 	// Matched: harmless requests / CheckRequests answered while a matcher expression from the input's rule file was evaluated
-	Matched  int       `json:"matched,omitempty"`
+	Matched int `json:"matched,omitempty"`
+	// Bursts: bursts of simultaneous requests fired; BurstsCold: ... of which against rules that had not served a request in the
+	// process before; BurstAnswered: requests of bursts that got an HTTP response
+	Bursts        int `json:"bursts,omitempty"`
+	BurstsCold    int `json:"bursts_cold,omitempty"`
+	BurstAnswered int `json:"burst_answered,omitempty"`
+	// Polls: requests of the http_endpoint provider's poller answered with the input's scripted response
+	Polls    int       `json:"polls,omitempty"`
 	Problems []problem `json:"problems,omitempty"`
 	Notes    []string  `json:"notes,omitempty"`
 }
